@@ -7,5 +7,6 @@ CONSTANTS
   SymOrder <- MCSymOrder
   FileOrder <- MCFileOrder
   Repaired = TRUE
+  Repaired2 = TRUE
 INVARIANT HealsEverything
 CHECK_DEADLOCK TRUE
